@@ -14,36 +14,70 @@ GEN_INV = ['SrcIsConc', 'AnchorsInSrc', 'AnchorsOrdered', 'FinalKeeps', 'Dump']
 
 LAYOUT = ['a', 'b', 'sp', 'nl', 'cm', 'lb', 'uk']
 LAYOUT2 = ['a', 'sp', 'nl', 'tab', 'cm', 'lb', 'ix', 'uk', 'ob', 'cb', 'skp', 'par', 'bl', 'el', 'q', 'bm', 'em', 'skb', 'ske', 'fn']
+LINES = ['L_a', 'L_ia', 'L_iia', 'L_lb', 'L_ilb', 'L_tlb', 'L_uk', 'L_e', 'L_sp', 'L_cm', 'L_icm', 'L_alb', 'L_lba', 'L_par', 'L_skp', 'L_ob', 'L_cb', 'b']
+LINES10 = ['L_a', 'L_iia', 'L_lb', 'L_ilb', 'L_uk', 'L_e', 'L_sp', 'L_cm', 'L_alb', 'b']
+VERBL = ['L_a', 'L_iia', 'L_lb', 'L_ilb', 'L_vrb', 'vrb', 'vrb2', 'b', 'sp', 'L_cm', 'L_ob', 'L_cb', 'add', 'cb', 'fn']
+M1 = ['a', 'sp', 'dB', 'uB', 'uBt', 'cb', 'rB']
+M2 = ['a', 'dC', 'uC', 'uCo', 'ocb', 'cb']
+M3 = ['a', 'b', 'dD', 'uD', 'dE', 'uE', 'dG', 'uG', 'dB', 'cb', 'uB']
+M4 = ['a', 'dA', 'uA', 'dF', 'uF', 'cb', 'sp', 'nl']
+MALL = sorted(set(M1 + M2 + M3 + M4 + ['fn', 'nl', 'im', 'add']))
+CITEO = ['a', 'sp', 'cto', 'ctc', 'ob', 'cb', 'rbk', 'b']
 COPY = ['a', 'b', '.', 'sp', 'nl', 'cm', 'ob', 'cb', 'uk', 'add', 'fbx', 'tc', 'fn', 'cap', 'vb', 'tie', 'nd', 'md', 'lq', 'rq',
         'thin', 'pct', 'amp', 'dol', 'hsh', 'usc', 'lbr', 'rbr', 'lb', 'sec', 'im']
-PROSE = ['a', 'b', '!', 'sp', 'nl', 'cm', 'uk', 'uk2', 'ob', 'cb', 'add', 'tc', 'fn', 'cap', 'sec', 'sub', 'bi', 'ei', 'be', 'ee', 'it',
+PROSE = ['up', 'cto', 'ctc', 'a', 'b', '!', 'sp', 'nl', 'cm', 'uk', 'uk2', 'ob', 'cb', 'add', 'tc', 'fn', 'cap', 'sec', 'sub', 'bi', 'ei', 'be', 'ee', 'it',
          'bu', 'eu', 'skb', 'ske', 'q', 'fnq', 'skp', 'bl', 'el', 'lb', 'ix', 'cite', 'ref', 'im', 'imp', 'par', 'bm', 'em']
-GENER = ['a', '.', 'sp', 'nl', 'ref', 'cite', 'im', 'imp', 'it', 'bi', 'ei', 'be', 'ee', 'sec', 'sub', 'fn', 'cap', 'cb', 'par', 'bm', 'em', 'lb', 'uk']
+GENER = ['dB', 'dC', 'uB', 'uBt', 'uC', 'a', '.', 'sp', 'nl', 'ref', 'cite', 'im', 'imp', 'it', 'bi', 'ei', 'be', 'ee', 'sec', 'sub', 'fn', 'cap', 'cb', 'par', 'bm', 'em', 'lb', 'uk']
 
 # per property: verdict key, list of exhaustive configs per tier (symbols, MaxSym, MaxDepth), simulation
 CONFIG = {
-    'C02': dict(key='c02', focus={'add', 'fbx', 'tc', 'fn', 'cap', 'vb', 'tie', 'nd', 'md', 'lq', 'rq', 'thin', 'pct', 'amp', 'dol', 'hsh', 'usc', 'lbr', 'rbr', 'cm', 'ob'},
-                quick=[(COPY, 3, 2), (['a', 'b', 'sp', 'nl', 'cm', 'ob', 'cb', 'uk', 'add', 'fn', 'vb', 'tie', 'nd', 'pct'], 4, 2)],
-                thorough=[(COPY, 4, 3), (['a', 'b', 'sp', 'nl', 'cm', 'ob', 'cb', 'uk', 'add', 'fn', 'vb', 'tie', 'nd', 'pct'], 5, 3)],
+    'C02': dict(key='c02', focus={'vrb', 'vrb2', 'lb', 'add', 'fbx', 'tc', 'fn', 'cap', 'vb', 'tie', 'nd', 'md', 'lq', 'rq', 'thin', 'pct', 'amp', 'dol', 'hsh', 'usc', 'lbr', 'rbr', 'cm', 'ob'},
+                quick=[(COPY, 3, 2), (['a', 'b', 'sp', 'nl', 'cm', 'ob', 'cb', 'uk', 'add', 'fn', 'vb', 'tie', 'nd', 'pct'], 4, 2), (VERBL, 3, 2)],
+                thorough=[(COPY, 4, 3), (['a', 'b', 'sp', 'nl', 'cm', 'ob', 'cb', 'uk', 'add', 'fn', 'vb', 'tie', 'nd', 'pct'], 5, 3), (VERBL, 5, 2)],
                 sim=(COPY, 300, 3000)),
     'C03': dict(key='c03', focus={'fn', 'cap', 'sec', 'sub', 'it', 'skb', 'skp', 'bl', 'add', 'tc', 'cite', 'im', 'cm', 'uk', 'bu'},
-                quick=[(PROSE, 3, 2), (['a', 'b', 'sp', 'uk', 'ob', 'cb', 'add', 'fn', 'sec', 'bi', 'ei', 'it', 'skp', 'cm', 'im'], 4, 3)],
-                thorough=[(PROSE, 4, 3), (['a', 'b', 'sp', 'uk', 'ob', 'cb', 'add', 'fn', 'sec', 'bi', 'ei', 'it', 'skp', 'cm', 'im'], 5, 3)],
+                quick=[(PROSE, 3, 2), (['a', 'b', 'sp', 'uk', 'ob', 'cb', 'add', 'fn', 'sec', 'bi', 'ei', 'it', 'skp', 'cm', 'im'], 4, 3),
+                       (CITEO, 6, 3), (['a', 'sp', 'fn', 'cap', 'cb', 'up', 'tc', 'lb'], 5, 2), (M3, 4, 2)],
+                thorough=[(PROSE, 4, 3), (['a', 'b', 'sp', 'uk', 'ob', 'cb', 'add', 'fn', 'sec', 'bi', 'ei', 'it', 'skp', 'cm', 'im'], 5, 3),
+                          (CITEO, 8, 3), (['a', 'sp', 'fn', 'cap', 'cb', 'up', 'tc', 'lb'], 7, 2), (M3, 6, 2)],
                 sim=(PROSE, 300, 3000)),
-    'C04': dict(key='c04', focus={'ref', 'cite', 'im', 'imp', 'it', 'sec', 'sub', 'fn', 'cap', 'par', 'bm'},
-                quick=[(GENER, 3, 2), (['a', 'sp', 'nl', 'ref', 'cite', 'im', 'it', 'be', 'ee', 'sec', 'fn', 'cb', 'par'], 4, 2)],
-                thorough=[(GENER, 4, 3), (['a', 'sp', 'nl', 'ref', 'cite', 'im', 'it', 'be', 'ee', 'sec', 'fn', 'cb', 'par'], 5, 3)],
+    'C04': dict(key='c04', focus={'uA', 'uB', 'uBt', 'uC', 'uCo', 'uD', 'uG', 'uF', 'ref', 'cite', 'im', 'imp', 'it', 'sec', 'sub', 'fn', 'cap', 'par', 'bm'},
+                quick=[(GENER, 3, 2), (['a', 'sp', 'nl', 'ref', 'cite', 'im', 'it', 'be', 'ee', 'sec', 'fn', 'cb', 'par'], 4, 2),
+                       (M1, 6, 2), (M2, 7, 2), (M3, 5, 2), (M4, 5, 2)],
+                thorough=[(GENER, 4, 3), (['a', 'sp', 'nl', 'ref', 'cite', 'im', 'it', 'be', 'ee', 'sec', 'fn', 'cb', 'par'], 5, 3),
+                          (M1, 8, 2), (M2, 9, 2), (M3, 6, 2), (M4, 7, 2)],
                 sim=(GENER, 300, 3000)),
+    'C09': dict(key='c09', focus={'uA', 'uB', 'uBt', 'uC', 'uCo', 'uD', 'uE', 'uG', 'uF'},
+                quick=[(M1, 6, 2), (M2, 7, 2), (M3, 5, 2), (M4, 5, 2)],
+                thorough=[(M1, 8, 2), (M2, 9, 2), (M3, 6, 2), (M4, 7, 2), (MALL, 4, 2)],
+                sim=(MALL, 300, 3000), routes=True),
     'C05': dict(key='c05', focus={'sp', 'nl', 'cm', 'tab', 'par', 'bm', 'bl', 'skb', 'lb', 'uk'},
-                quick=[(LAYOUT, 5, 1), (LAYOUT2, 3, 2), (['a', 'sp', 'nl', 'cm', 'lb', 'uk', 'ob', 'cb', 'skp', 'par', 'tab'], 4, 2)],
-                thorough=[(LAYOUT, 6, 1), (LAYOUT2, 4, 2), (['a', 'sp', 'nl', 'cm', 'lb', 'uk', 'ob', 'cb', 'skp', 'par', 'tab'], 5, 2)],
+                quick=[(LAYOUT, 5, 1), (LAYOUT2, 3, 2), (['a', 'sp', 'nl', 'cm', 'lb', 'uk', 'ob', 'cb', 'skp', 'par', 'tab'], 4, 2), (LINES10, 4, 1), (LINES, 3, 2)],
+                thorough=[(LAYOUT, 6, 1), (LAYOUT2, 4, 2), (['a', 'sp', 'nl', 'cm', 'lb', 'uk', 'ob', 'cb', 'skp', 'par', 'tab'], 5, 2), (LINES10, 5, 1), (LINES, 4, 2)],
                 sim=(LAYOUT2, 300, 3000)),
 }
 OPTS = {'pack': 'xcolor,listings'}
 
 
 def project(rec):
-    return {k: rec[k] for k in ('id', 'doc', 'src', 'plain', 'map')}
+    d = {k: rec[k] for k in ('id', 'doc', 'src', 'plain', 'map')}
+    d['ndef'] = rec.get('ndef', 0)
+    d['prefix'] = rec.get('prefix', [])
+    return d
+
+
+DEFSYMS = {'dA', 'dB', 'dC', 'dD', 'dE', 'dF', 'dG', 'rB'}
+
+
+def drive_routes(case):
+    for path, content in (case.get('files') or {}).items():
+        with open(path, 'w', encoding='utf-8') as f:
+            f.write(content)
+    rec = drivers.drive_filter(case)
+    rec['ndef'] = case.get('ndef', 0)
+    rec['prefix'] = case.get('prefix', [])
+    rec['files'] = case.get('files')
+    return rec
 
 
 def generate(c, confs, sim, tier):
@@ -75,11 +109,40 @@ def run(prop, tier, seed, replay=None):
               'is judged by Obs.tla; non-trivial = distinct source text containing at least one focus construct of the property')
     if replay:
         case = json.load(open(replay))['case']
-        beh = [{'doc': case['doc'], 'src': case['src']}]
+        beh = [{'doc': case['doc'], 'src': case['src'], 'ndef': case.get('ndef', 0), 'prefix': case.get('prefix', []), 'files': case.get('files')}]
+        OPTS.update(case.get('opts') or {})
     else:
         beh = generate(c, conf[tier], conf['sim'], tier)
-    cases = [{'id': i, 'doc': b['doc'], 'src': b['src'], 'opts': OPTS} for i, b in enumerate(beh)]
-    recs = c.drive(cases, drivers.drive_filter)
+    cases = [{'id': i, 'doc': b['doc'], 'src': b['src'], 'opts': OPTS, 'ndef': b.get('ndef', 0), 'prefix': b.get('prefix', []),
+              'files': b.get('files')} for i, b in enumerate(beh)]
+    scratch = None
+    if conf.get('routes') and not replay:
+        # C09: the leading block of definitions is also supplied through --defs and through a file read by \LTinput
+        from checks import total
+        import tempfile
+        tab = total.conc_table()
+        scratch = tempfile.mkdtemp(prefix='yvd')
+        extra = []
+        for cs in cases:
+            n = 0
+            while n < len(cs['doc']) and cs['doc'][n] in DEFSYMS:
+                n += 1
+            if n == 0 or n == len(cs['doc']):
+                continue
+            block = [ch for s in cs['doc'][:n] for ch in tab[s]]
+            rest = cs['src'][len(block):]
+            extra.append(dict(cs, id='%s.defs' % cs['id'], src=rest, ndef=n, prefix=[], opts=dict(OPTS, defs=chars.dec(block))))
+            path = os.path.join(scratch, 'd%s.tex' % cs['id'])
+            pre = chars.enc('\\LTinput{%s}' % path)
+            extra.append(dict(cs, id='%s.input' % cs['id'], src=pre + rest, ndef=n, prefix=pre, files={path: chars.dec(block)}))
+        cases += extra
+        c.extra['route_cases'] = len(extra)
+    try:
+        recs = c.drive(cases, drive_routes)
+    finally:
+        if scratch:
+            import shutil
+            shutil.rmtree(scratch, ignore_errors=True)
     ok = [r for r in recs if r['outcome'] == 'returned']
     for r in recs:
         if r['outcome'] != 'returned':
@@ -90,6 +153,10 @@ def run(prop, tier, seed, replay=None):
     kf = findings.load(prop)
     for r in ok:
         v = verdicts[r['id']]
+        if key == 'c09':
+            # substitution semantics = conservation + exact positions of arguments + body text inside the call,
+            # identically for the three supply routes (the expectation is shifted by the constant offset)
+            v['c09'] = next((k + ':' + v[k] for k in ('c03', 'c02', 'c04') if v[k] not in ('ok', 'skipped')), 'ok')
         if set(r['doc']) & conf['focus']:
             c.nontrivial.add(''.join(r['src']))
         if v[key] not in ('ok', 'skipped'):
